@@ -130,6 +130,9 @@ def history_tier(res, tier, seed, shard, scratch):
     for h in range(n_hist):
         rng = rng_for("C16", tier, seed, shard, h)
         cfg = default_config("csv", rng.random() < 0.5)
+        if h % 3 == 2:
+            cfg["flush"] = False  # bytes may reach the file later, but only ever as appends
+            res.count("history.flush_on_insert_false")
         s = Session(cfg, scratch)
         hub = ioproxy.IOHub()
         hub.primary = s.path
@@ -166,6 +169,30 @@ def history_tier(res, tier, seed, shard, scratch):
                     rd = [repr(e) for e in rec.events if e.kind in READ_KINDS]
                     if rd:
                         res.violate(Violation("C16", "insert-reads-existing-data", dict(ctx, reads=rd[:5]), replay={"cfg": cfg, "ops": list(s.log)}, features={"what": "reads"}))
+                        return
+                if not cfg.get("flush", True):
+                    # a run of buffered inserts, then close: what reaches the file is exactly the appended rows
+                    base = s.file_bytes()
+                    want_rows = []
+                    from tinyflux import Point as _P
+
+                    for i in range(rng.randint(2, 6)):
+                        p_ = _P(time=from_us(BASE_US + (10_000 + i) * 1_000_000), tags={"k": "buffered"}, fields={"x": i})
+                        s.db.insert(p_, compact_key_prefixes=bool(i % 2))
+                        now = s.file_bytes()
+                        res.count("history.buffered_inserts_observed")
+                        if not now.startswith(base):
+                            res.violate(Violation("C16", "insert-not-append-only", {"config": cfg, "what": "buffered insert rewrote earlier bytes", "insert_no": i}, replay={"cfg": cfg, "ops": list(s.log)}, features={"what": "prefix", "origin": "flush_on_insert=False"}))
+                            return
+                        base = now
+                        want_rows.append(",".join(str(c) for c in p_._serialize_to_list(bool(i % 2))))
+                    s.db.close()
+                    final = s.file_bytes()
+                    tail = final[len(base):] if final.startswith(base) else None
+                    text = final.decode("utf-8", "replace")
+                    missing = [r for r in want_rows if text.count(r) != 1]
+                    if tail is None or missing:
+                        res.violate(Violation("C16", "insert-not-append-only", {"config": cfg, "what": "after close the file does not hold every buffered row exactly once after the earlier content", "rows_missing_or_duplicated": missing[:3]}, replay={"cfg": cfg, "ops": list(s.log)}, features={"what": "prefix", "origin": "flush_on_insert=False"}))
                         return
         finally:
             s.discard()
@@ -302,6 +329,7 @@ def run(res, tier, seed, shard, nshards):
     res.require("proxy.inserts_observed")
     res.require("history.inserts_observed")
     res.require("aborted.inserts_observed")
+    res.require("history.buffered_inserts_observed")
     res.assumptions += [
         "I/O cost = calls made by tinyflux.storages on the database handle (proxy) / syscalls on the database fd (strace); CPU work is not measured",
     ]
